@@ -443,6 +443,10 @@ def run_job(job, acc):
                     elif sym[0] in 'CA':
                         for c in M1.cands(sym[1]):
                             level_of.setdefault(c, []).append(sym[2])
+                    elif sym[0] == 'S':
+                        # what a within-word expression of that branch offers for the typed text
+                        for c in M1.nested_complete(sym[1], words[-1]):
+                            level_of.setdefault(c, []).append(sym[2])
                 known = [(c, min(level_of[c])) for c in c2 if c in level_of]
                 if known:
                     m = min(l for _, l in known)
